@@ -1,6 +1,6 @@
 import SteelVerif.C18.LemmasWitness
 import SteelVerif.C18.LemmasCc
-import SteelVerif.C18.LemmasDrop
+import SteelVerif.C18.LemmasDropAll
 import SteelVerif.C18.GenTraversals
 /-
 C18 — arbitrarily deep, wide or cyclic values are handled without exhausting the host.
@@ -159,6 +159,45 @@ theorem print_box_ring_unbounded (n fuel i : Nat) (hi : i < n) : nativeDepth Cfg
 theorem drop_terminates (g : Graph) (rc : List Nat) (root : Nat) :
     ∃ fuel, fuel ≤ dropBound g rc ∧ ∃ r, iter (dropStep g) fuel { work := [root], rc := rc, freed := [] } = some r :=
   drop_terminates_gen g rc root
+
+theorem closed_of_acyclic (g : Graph) (ha : acyclicB g = true) : closedB g = true := by
+  unfold acyclicB at ha
+  unfold closedB
+  rw [List.all_eq_true] at ha ⊢
+  intro i hi
+  have := ha i hi
+  rw [List.all_eq_true] at this ⊢
+  intro j hj
+  have h1 := this j hj
+  have h2 := List.mem_range.mp hi
+  simp only [decide_eq_true_eq] at h1 ⊢
+  omega
+
+/-- **drop frees everything** — on an acyclic graph (children have smaller indices) in which every node other than
+    the root is held by some node, with strong counts = number of holders (+1 for the outside reference to the root),
+    dropping the root ends with every node freed. -/
+theorem drop_frees_all_acyclic (g : Graph) (root : Nat) (ha : acyclicB g = true) (hr : root < g.size)
+    (hh : allHeldB g root = true) :
+    ∃ fuel, fuel ≤ dropBound g (initRc g root) ∧ ∃ freed rc, dropRun g fuel root = some (freed, rc) ∧
+      ∀ v, v < g.size → v ∈ freed := by
+  obtain ⟨fuel, hb, r, hrun⟩ := drop_terminates_gen g (initRc g root) root
+  refine ⟨fuel, hb, r.1, r.2, hrun, ?_⟩
+  have hc := closed_of_acyclic g ha
+  exact iter_inv (DropInv g) (fun r => ∀ v, v < g.size → v ∈ r.1)
+    (fun s s' hI hs => dropStep_inv g hc s s' hI hs)
+    (fun s r hI hs => by
+      unfold dropStep at hs
+      cases hw : s.work with
+      | nil =>
+        simp only [hw] at hs
+        cases hs
+        exact drop_final_all g ha s hI hw
+      | cons v rest =>
+        simp only [hw] at hs
+        split at hs
+        · cases hs
+        · split at hs <;> cases hs)
+    fuel _ r (drop_init_inv g root hr hh) hrun
 
 /-! ## 3. Native recursion: depth linear in the depth of the value -/
 
@@ -340,6 +379,8 @@ example : nativeDepth Cfg.fixed .hash (chain .list 5) 100 5 = 1 := by decide
 example : nativeDepth Cfg.current .mark (chain .list 5) 100 5 = 1 := by decide
 example : hashLim (chain .list 5) 6 5 = some () ∧ hashLim (chain .list 5) 5 5 = none := by decide
 example : (dropRun (chain .pair 3) 100 3).map (·.1) = some [0, 1, 2, 3] := by decide
+example : acyclicB (chain .pair 3) = true ∧ allHeldB (chain .pair 3) 3 = true := by decide
+example : acyclicB (dag 3) = true ∧ allHeldB (dag 3) 3 = true := by decide
 example : markRun Cfg.current (dag 3) 15 [3] = none ∧ (markRun Cfg.current (dag 3) 16 [3]).isSome = true := by decide
 
 end SteelVerif.C18
